@@ -93,6 +93,12 @@ Definition change_password (st : store) (n : str) (stored : str) : store :=
    builtin lower-cases too.  [stored] is the credential text that ends up in the record. *)
 Definition set_user (st : store) (name stored : str) (perms : list str) : store :=
   write {| uname := lower name; upass := stored; uperms := perms |} st.
+(* SetUser's handling of the password: HashPassword fails above 72 bytes and the error is dropped, so the
+   record keeps the credential it had (none, for a new user) *)
+Definition set_user_pw (H : hashes) (st : store) (name pw : str) (perms : list str) : store :=
+  let stored := if N.of_nat (length pw) <=? 72 then bcrypt_gen H pw
+                else match lookup (lower name) st with Some x => upass x | None => [] end in
+  set_user st name stored perms.
 Definition delete_user (st : store) (name : str) : store :=
   filter (fun x => negb (str_eqb (uname x) (lower name))) st.
 
